@@ -8,6 +8,7 @@ Rots2 == {Rot2Of(CS_Id), Rot2Of(CS_90), Rot2Of(CS_3_5), FlipX(Rot2Of(CS_5_13))}
 Rots3 == {QuatMat(<<1,0,0,0>>), QuatMat(<<1,1,1,1>>), QuatMat(<<1,2,2,4>>), FlipX(QuatMat(<<2,3,6,0>>))}
 FormatGrids == {G2(n, M, ac) : n \in {<<5, 4>>, <<1, 3>>}, M \in Rots2, ac \in BOOLEAN}
           \cup {G3(n, M, ac) : n \in {<<5, 4, 3>>, <<4, 1, 2>>}, M \in Rots3, ac \in BOOLEAN}
+          \cup {G3(<<5, 4, 1>>, M, TRUE) : M \in {QuatMat(<<1,0,0,0>>), QuatMat(<<1,2,2,4>>)}}      \* a single-slice volume stays 3-D
 ChainGrids == {G2(<<5, 4>>, M, ac) : M \in {Rot2Of(CS_90), FlipX(Rot2Of(CS_5_13))}, ac \in BOOLEAN}
          \cup {G3(<<5, 4, 3>>, QuatMat(<<1,2,2,4>>), TRUE), G3(<<4, 1, 2>>, FlipX(QuatMat(<<2,3,6,0>>)), FALSE)}
 SmallChainGrids == {G2(<<5, 4>>, FlipX(Rot2Of(CS_5_13)), TRUE), G3(<<5, 4, 3>>, QuatMat(<<1,2,2,4>>), FALSE)}
